@@ -23,6 +23,13 @@ type undoItem struct {
 func (h *Sources) Save() {
 	defer h.Reset()
 
+	// Once the line is accepted, it might have been added to the history,
+	// which moves the history line we were on away from its position:
+	// the state of the line must not be saved under that position.
+	if h.accepted {
+		return
+	}
+
 	// Get the undo states for the current line.
 	line := h.getLineHistory()
 	if line == nil {
